@@ -423,7 +423,18 @@ func runC16(c *fw.Ctx, idx int) fw.Result {
 			rc2[at].Desc = " "
 			data = []byte(layOut(r, rc2, lo))
 		case "no-leading-gt":
-			data = data[1:]
+			switch r.Intn(4) {
+			case 0:
+				data = data[1:]
+			case 1:
+				// something in front of the first '>': a byte order mark, a stray character, a
+				// sequence line without a header
+				data = append([]byte{0xEF, 0xBB, 0xBF}, data...)
+			case 2:
+				data = append([]byte(string("#; \t@")[r.Intn(5):][:1]), data...)
+			default:
+				data = append([]byte("ACGT\n"), data...)
+			}
 			mustErr = []bool{true, true, true, true}
 		case "empty":
 			data = nil
